@@ -479,6 +479,12 @@ class Exec:
             for s1, ss in self.fork(st, Val.is_S(other.z), f'L{ln}.str'):
                 outs.append((s1, ZV('str', Concat(self.as_str(s1, l), self.as_str(s1, r))) if ss else self.raise_(s1, 'TypeError', where='operator')))
             return outs
+        if isinstance(op, (ast.BitOr, ast.Sub)) and isinstance(l, PSet) and isinstance(r, PSet) and not l.arr.sort().eq(r.arr.sort()):
+            # `set()` has no element type of its own: it takes the one of the other operand
+            def empty(v): return z3.is_K(v.arr) and z3.is_false(v.arr.arg(0))
+            if empty(l): l = PSet(K(r.arr.sort().domain(), BoolVal(False)), r.ekind)
+            elif empty(r): r = PSet(K(l.arr.sort().domain(), BoolVal(False)), l.ekind)
+            else: raise Unsupported(f'set operation between sets of different element kinds (line {ln})')
         if isinstance(op, ast.BitOr) and isinstance(l, PSet) and isinstance(r, PSet):
             x = fresh('x', l.arr.sort().domain())
             return [(st, PSet(z3.Lambda([x], Or(l.arr[x], r.arr[x])), l.ekind))]
@@ -569,6 +575,21 @@ class Exec:
             cur = nxt
         return outs
 
+    def _type_identity(self, st, l, r, ln):
+        """`type(a) is type(b)` / `type(a) is SomeClass`: identity of the exact classes"""
+        from .sorts import type_tag
+        from . import calls
+        def tag(v):
+            if isinstance(v, PType):
+                if isinstance(v.of, PExc): raise Unsupported(f'type() of an exception compared (line {ln})')
+                return type_tag(to_val(v.of, st))
+            if isinstance(v, PConst) and isinstance(v.obj, type):
+                from .sorts import PRIMITIVE_TYPE_TAGS
+                if v.obj in PRIMITIVE_TYPE_TAGS: return IntVal(PRIMITIVE_TYPE_TAGS[v.obj])
+                return 1000 + 2 * calls.class_id(v.obj)
+            raise Unsupported(f'`is` between a type and a non-type (line {ln})')
+        return tag(l) == tag(r)
+
     def compare(self, st, op, l, r, node=None):
         ln = getattr(node, 'lineno', '?')
         neg = isinstance(op, (ast.IsNot, ast.NotEq, ast.NotIn))
@@ -576,6 +597,9 @@ class Exec:
         if isinstance(op, (ast.Is, ast.IsNot)):
             if isinstance(l, PConst) and isinstance(r, PConst):
                 return [(st, PConst((l.obj is r.obj) != neg))]
+            if isinstance(l, PType) or isinstance(r, PType):
+                c = self._type_identity(st, l, r, ln)
+                return [(st, res(c))]
             single = lambda v: isinstance(v, PConst) and (v.obj is None or v.obj is UNDEF or isinstance(v.obj, bool) or isinstance(v.obj, SentinelStub))
             if not (single(l) or single(r) or self._refy(l) and self._refy(r)):
                 raise Unsupported(f'`is` between non-singletons (line {ln})')
